@@ -200,7 +200,8 @@ def handoff_check(fs, step, b_pyi, stats):
       continue
     stats["handoff_probes"] = stats.get("handoff_probes", 0) + 1
     try:
-      ng, nw = typenorm.norm(got, (mod,)), typenorm.norm(want, (mod,))
+      ng = typenorm.norm(got, (mod,), typenorm.import_aliases(binfo.get("imports", [])))
+      nw = typenorm.norm(want, (mod,), typenorm.import_aliases(ainfo.get("imports", [])))
     except SyntaxError:
       continue
     if ng != nw:
